@@ -443,6 +443,27 @@ def fixed_cases(ctx: Ctx):
                                         ["threads", [[1, None], [2, None], [0, None]], "coop",
                                          [[0, run], [1, run + 3], [2, run]]]]}
     yield {"texts": texts2, "ops": [["threads", [[0, None], [1, None], [2, None], [1, None]], "os", []]]}
+    # numeric twins: charts that are the same but for every tick >= 1 being moved up by an amount under which
+    # DIFFERENT integers collide in some machine representation: 2^61 - 1 (CPython's hash modulus: hash(n) ==
+    # hash(n + 2^61 - 1)), 2^32 / 2^64 (truncation to a machine word), 2^53 (float(n) == float(n + 1)).  Under a
+    # tempo of 10^12 BPM every time stays far inside the timedelta range.  Whatever one parse leaves behind
+    # (a memo keyed on a hash, on a float, on a truncated integer) must not colour the twin's times.
+    def shifted(k):
+        sh = lambda t: t + k if t >= 1 else t  # noqa: E731
+        return {"res": 192,
+                "sync": [[0, "TS", 4], [0, "B", 10 ** 15], [sh(96), "B", 2 * 10 ** 15], [sh(300), "TS", 3, 3]],
+                "events": [[sh(96), "section a"], [sh(200), "lyric la"]],
+                "tracks": {"ExpertSingle": [[sh(96), "N", 0, 50], [sh(96), "S", 2, 150], [sh(200), "N", 1, 0],
+                                            [sh(200), "E", "solo"], [sh(260), "N", 2, 7], [sh(260), "N", 3, 9]]}}
+    m61 = 2 ** 61 - 1
+    offs = [0, m61, 2 * m61, 2 ** 61, 2 ** 32, 2 ** 64, 2 ** 53, 2 ** 53 + 1, 2 ** 63]
+    texts3 = [S.render(shifted(k)) for k in offs]
+    n3 = len(texts3)
+    yield {"texts": texts3, "ops": [["parse", i, None] for i in range(n3)] + [["parse", 0, None]]}
+    yield {"texts": texts3, "ops": [["parse", i, None] for i in reversed(range(n3))] + [["parse", n3 - 1, None]]}
+    yield {"texts": texts3, "ops": [["parse", i, None] for i in (1, 0, 2, 0, 5, 0, 7, 6, 0)]}
+    yield {"texts": texts3, "ops": [["threads", [[0, None], [1, None], [2, None]], "coop", [[0, 7], [1, 7], [2, 7]]],
+                                    ["threads", [[6, None], [7, None]], "coop", [[0, 3], [1, 3]]]]}
 
 
 PARTS: list[Part] = [
